@@ -30,6 +30,7 @@ type world struct {
 	kjit   float64
 	rcInit time.Duration
 	rcMax  time.Duration
+	rcJit  float64
 	mutual bool
 	mon    *monitor
 	dest   string
@@ -79,10 +80,11 @@ func drawWorld() *world {
 	}
 	w.idle = []time.Duration{10 * time.Second, 5 * time.Second, 20 * time.Second}[simrt.Choose(3, "idle")]
 	w.kto = []time.Duration{5 * time.Second, 3 * time.Second, 10 * time.Second}[simrt.Choose(3, "kto")]
-	w.kjit = []float64{0, 0.5, 0.9}[simrt.Choose(3, "kjit")]
+	w.kjit = []float64{0, 0.5, 0, 0.9}[simrt.Choose(4, "kjit")]
 	w.rcInit = []time.Duration{time.Second, 100 * time.Millisecond, 300 * time.Millisecond}[simrt.Choose(3, "rcinit")]
 	w.rcMax = []time.Duration{5 * time.Second, 10 * time.Second, 2 * time.Second}[simrt.Choose(3, "rcmax")]
-	rcJit := []float64{0, 0.2}[simrt.Choose(2, "rcjit")]
+	rcJit := []float64{0, 0.2, 0}[simrt.Choose(3, "rcjit")]
+	w.rcJit = rcJit
 	w.mutual = simrt.Chance(1, 2, "mutual")
 	if pc := []int{0, 4096, 1024}[simrt.Choose(3, "pipecap")]; pc > 0 {
 		m.Net.PipeCap = pc
@@ -215,7 +217,7 @@ func runC32() {
 	w.mon.start()
 	m.StartAll()
 	if w.mutual {
-		simrt.Probe("c32_mutual_dial_race")
+		simrt.Probe("c32_both_ends_configured_to_dial")
 	}
 	if !w.waitChainUp(90 * time.Second) {
 		// liveness of connection establishment is not C32's subject
@@ -295,25 +297,31 @@ func (w *world) finish() {
 	w.m.StopAll()
 }
 
-// countDuplicates probes how the simultaneous dials ended.
+// countDuplicates probes (at a quiescent instant) simultaneous dials and
+// rejected duplicates between n0 and n1: a link of the pair, other than the
+// registered one, that was created at the same instant as or later than the
+// registered link and is dead although the registered link lives on, lost the
+// registration race or was rejected as a duplicate.
 func (w *world) countDuplicates() {
 	a, b := w.m.Nodes[nA].Name, w.m.Nodes[nB].Name
-	total, dead := 0, 0
+	reg, up := w.pairUp(nA, nB)
+	var pair []*simnet.Link
 	for _, l := range w.m.Net.Links() {
-		if l.Kind != "peer" {
-			continue
+		if l.Kind == "peer" && ((l.DialNode == a && l.AccNode == b) || (l.DialNode == b && l.AccNode == a)) {
+			pair = append(pair, l)
 		}
-		if (l.DialNode == a && l.AccNode == b) || (l.DialNode == b && l.AccNode == a) {
-			total++
-			if l.Dead() {
-				dead++
+	}
+	for i, l := range pair {
+		for _, l2 := range pair[i+1:] {
+			if w.born[l.ID] == w.born[l2.ID] && l.DialNode != l2.DialNode {
+				simrt.Probe("c32_mutual_dial_race")
 			}
 		}
+		if up && l != reg && w.born[l.ID] >= w.born[reg.ID] && l.Dead() {
+			simrt.Probe("c32_duplicate_rejected")
+		}
 	}
-	if total > 1 {
-		simrt.Probe("c32_duplicate_rejected")
-	}
-	if total > 3 {
+	if len(pair) > 3 {
 		simrt.Probe("c32_connection_churn_ge_4_links")
 	}
 }
@@ -586,7 +594,10 @@ func (w *world) scenarioKeepaliveTakeover(ep int) {
 		return
 	}
 	x := w.m.Edges[0][1]
-	if simrt.Chance(1, 4, "kttarget") {
+	// variant without any harness-played peer: the genuine dialer's first retry
+	// is made to land on the keepalive tick (needs jitter-free backoff)
+	genuine := w.rcJit == 0 && simrt.Chance(1, 2, "ktgenuine")
+	if !genuine && simrt.Chance(1, 4, "kttarget") {
 		x = w.m.Edges[0][0]
 	}
 	p := nA + nB - x
@@ -596,6 +607,10 @@ func (w *world) scenarioKeepaliveTakeover(ep int) {
 		return
 	}
 	cx := w.reg(x, p)
+	if genuine {
+		w.keepaliveTeardownWithGenuineRedial(l, x, p, cx)
+		return
+	}
 	born, known := w.born[l.ID]
 	if !known {
 		return
@@ -683,6 +698,61 @@ func (w *world) checkHeldConnectionRegistered(rd *rawDup, x, p int) {
 	if linkOf(c) != rd.link {
 		simrt.Probe("c32_two_open_connections_one_registered")
 	}
+}
+
+// The agents-only variant of scenarioKeepaliveTakeover: x (the accepting end)
+// is blind and mute on link l; the break is timed so that the dialling peer p,
+// which notices it at once, makes its first retry exactly at x's next keepalive
+// tick, i.e. in the instant in which x's keepalive loop and then its read loop
+// report the old connection.
+func (w *world) keepaliveTeardownWithGenuineRedial(l *simnet.Link, x, p int, cx *peer.Connection) {
+	born, known := w.born[l.ID]
+	if !known {
+		return
+	}
+	toward, away := 0, 1
+	if l.DialNode == w.m.Nodes[x].Name {
+		toward, away = 1, 0
+	}
+	w.mon.faulted[l.ID] = true
+	w.mon.stalled[l.ID] = true
+	l.Stall(toward)
+	simrt.Eventf("fault: stall link %d toward %s (genuine redial variant)", l.ID, w.m.Nodes[x].Name)
+	deadline := simrt.Elapsed() + w.idle + w.iv + time.Second
+	for l.H[toward].Buffered() == 0 && simrt.Elapsed() < deadline {
+		simrt.Sleep(50 * time.Millisecond)
+	}
+	if l.H[toward].Buffered() == 0 || isClosed(cx) {
+		simrt.Probe("c32_keepalive_scenario_abandoned")
+		l.Reset()
+		return
+	}
+	now := simrt.Elapsed()
+	k := (now-born)/w.idle + 1
+	tick := born + k*w.idle
+	for tick-now < w.rcInit+20*time.Millisecond {
+		tick += w.idle
+	}
+	simrt.Sleep(tick - w.rcInit - now)
+	if isClosed(cx) {
+		simrt.Probe("c32_keepalive_scenario_abandoned")
+		l.Reset()
+		return
+	}
+	w.failLeft = map[string]int{}
+	simrt.Eventf("fault: break link %d away from %s; %s's first retry is due at its keepalive tick t=%v", l.ID, w.m.Nodes[x].Name, w.m.Nodes[p].Name, tick)
+	l.H[away].ResetWith(simnet.ErrReset)
+	simrt.Probe("c32_link_blind_and_mute")
+	simrt.Sleep(w.rcInit + time.Millisecond)
+	if isClosed(cx) {
+		simrt.Probe("c32_keepalive_teardown_before_read_error")
+		simrt.Probe("c32_keepalive_teardown_at_predicted_tick")
+	}
+	if l2, ok := w.pairUp(nA, nB); ok && l2 != l && w.born[l2.ID] == tick {
+		simrt.Probe("c32_genuine_redial_registered_at_keepalive_teardown")
+	}
+	simrt.Sleep(w.mon.period + 100*time.Millisecond)
+	l.Reset()
 }
 
 // controlMarker shows that the marker announcement used by the raw duplicates
